@@ -278,9 +278,12 @@ def native_C14(tier, seed):
                         # a refit (same data, no overwrite) inside a new automatic-checkpointing context: rewrites the configuration
                         with a.auto_checkpoint(path):
                             a.fit(SA, n_epochs=1)
+                        last_fit = ("fitA", had_ckpt)           # a refit without overwrite like any other (training again gives another flow)
                     elif op == "other_fitA":
-                        # another instance (which has not sampled) is fitted with the same file as its checkpoint path
-                        mk().fit(SA, n_epochs=1, checkpoint_path=path)
+                        # another instance (which has not sampled) is fitted with the same file as its checkpoint path; it then takes over
+                        a = mk()
+                        a.fit(SA, n_epochs=1, checkpoint_path=path)
+                        last_fit = ("fitA", had_ckpt)
                     elif op in ("resume_ctx_smc", "resume_ctx_fitA"):
                         import h5py
                         if not os.path.exists(path):
@@ -296,6 +299,7 @@ def native_C14(tier, seed):
                                 a.sample_posterior(20, n_steps=2, adaptive=False, sampler_kwargs=dict(n_steps=1))      # sampler type inferred from the file
                             else:
                                 a.fit(SA, n_epochs=1)
+                                last_fit = ("fitA", had_ckpt)
                     elif op in ("fitA", "fitB", "fitB_ow"):
                         a.fit(SA if op == "fitA" else SB, n_epochs=1, checkpoint_path=path, overwrite=(op == "fitB_ow"))
                         last_fit = (op, had_ckpt)
